@@ -13,6 +13,7 @@ rejections) is always the last one of its connection, preceded by a quiescence p
 the earlier cases are judged first.  Which cases really were evaluated is measured from the trace, never assumed.
 Python stdlib only.  Used by bin/engines/C13; `httpgen.py replay <case.json>` replays one reported case."""
 import json, os, random, subprocess, sys, tempfile
+TLCW = os.path.join(os.path.dirname(os.path.dirname(os.path.abspath(__file__))), "bin", "tlcw")  # tlc with a large main-thread stack
 
 INST = {
     ":method=GET": [(":method", "GET")],
@@ -337,7 +338,7 @@ VERIF = os.path.dirname(os.path.dirname(os.path.abspath(__file__)))
 
 def run_trace_spec(trace, out, metadir, log):
     env = dict(os.environ, TRACE=trace, OUT=out, JAVA_TOOL_OPTIONS="-Xss1g -Xmx3g -DTLA-Library=%s/spec" % VERIF)
-    cmd = ["timeout", "1800", "tlc", "-workers", "1", "-metadir", metadir, "-cleanup", "-noGenerateSpecTE",
+    cmd = ["timeout", "1800", TLCW, "-workers", "1", "-metadir", metadir, "-cleanup", "-noGenerateSpecTE",
            "-config", "Trace_Http.cfg", "Trace_Http.tla"]
     with open(log, "w") as lf:
         return subprocess.run(cmd, cwd=os.path.join(VERIF, "spec", "trace"), env=env, stdout=lf, stderr=subprocess.STDOUT).returncode
